@@ -295,7 +295,7 @@ func Check(prop string, o Options) int {
 	cov.SourceHash = SourceHash()
 	cov.Bounds = meta.Bounds
 	cov.OutsideBounds = meta.Outside
-	cov.SolverBackends = []string{"z3 4.8.12 (/usr/bin/z3 -in)", "z3 5.1.0 (z3-new -in)", "cvc5 1.0 --incremental"}
+	cov.SolverBackends = []string{"z3 5.1.0 (z3-new -in), primary", "z3 4.8.12 (/usr/bin/z3 -in), fallback and cross-check", "cvc5 1.0 --incremental, fallback"}
 	cov.KnownFindings = knownSeen
 	cov.Exhaustive = true
 	funcs := map[string]bool{}
